@@ -454,7 +454,10 @@ PIPE_FILTERS = {
 }
 
 
-def pipeline_family():
+def pipeline_family(kind="composites", scale=1000):
+    """kind "composites": the sparse layer holds only the composites (bases are interpolated);
+    kind "bases": it holds only the base 'a' (the composites tied to it must be interpolated there).
+    scale: the axis runs 0..scale, the sparse source sits half way (0.5 on a 0..1 axis)."""
     def master(right, top):
         return {"glyphs": {
             ".notdef": {"width": 500}, "space": {"width": 250, "unicodes": [0x20]},
@@ -468,14 +471,18 @@ def pipeline_family():
             "nested": {"width": 620, "components": [("aacute", (1, 0, 0, 1, 20, 0))]}},
             "order": [".notdef", "space", "a", "acutecomb", "aacute", "nested"]}
     light, bold = master(400, 500), master(500, 520)
-    light["layers"] = {"mid": {"glyphs": {
-        "aacute": {"width": 600, "components": [("a", (1, 0, 0, 1, 0, 0)), ("acutecomb", (1, 0, 0, 1, 280, 16))]},
-        "nested": {"width": 620, "components": [("aacute", (1, 0, 0, 1, 24, 0))]}}}}
+    if kind == "composites":
+        light["layers"] = {"mid": {"glyphs": {
+            "aacute": {"width": 600, "components": [("a", (1, 0, 0, 1, 0, 0)), ("acutecomb", (1, 0, 0, 1, 280, 16))]},
+            "nested": {"width": 620, "components": [("aacute", (1, 0, 0, 1, 24, 0))]}}}}
+    else:
+        light["layers"] = {"mid": {"glyphs": {
+            "a": {"width": 600, "contours": [B.box(100, 0, 470, 506)], "anchors": [("top", 286, 526)]}}}}
     return B.build_designspace(
-        [{"name": "Weight", "tag": "wght", "min": 0, "default": 0, "max": 1000}],
+        [{"name": "Weight", "tag": "wght", "min": 0, "default": 0, "max": scale}],
         [{"spec": light, "share": "l", "location": {"Weight": 0}, "name": "light"},
-         {"spec": light, "share": "l", "layerName": "mid", "location": {"Weight": 500}, "name": "mid"},
-         {"spec": bold, "location": {"Weight": 1000}, "name": "bold"}])
+         {"spec": light, "share": "l", "layerName": "mid", "location": {"Weight": scale / 2}, "name": "mid"},
+         {"spec": bold, "location": {"Weight": scale}, "name": "bold"}])
 
 
 def _contours(tt, name):
@@ -503,9 +510,11 @@ def run_pipeline(setup):
     from ufo2ft.filters import getFilterClass
     seq = setup["seq"]
     filters = [getFilterClass(PIPE_FILTERS[k][0])(pre=True, **PIPE_FILTERS[k][1]) for k in seq]
-    feat = {"part": "pipeline", "seq": "".join(seq)}
+    kind, scale = setup.get("kind", "composites"), setup.get("scale", 1000)
+    feat = {"part": "pipeline", "seq": "".join(seq), "sparse_holds": kind, "axis_max": scale}
     ctr = {"pipeline_states": 1, "pipeline_sparse_composites_compared": 0}
-    r = ufo2ft.compileInterpolatableOTFsFromDS(pipeline_family(), filters=filters, useProductionNames=False)
+    r = ufo2ft.compileInterpolatableOTFsFromDS(pipeline_family(kind, scale), filters=filters,
+                                               useProductionNames=False)
     fonts = {s.name: s.font for s in r.sources}
     viols = []
 
@@ -515,8 +524,15 @@ def run_pipeline(setup):
 
     def shifted(cs, dx, dy):
         return [[(x + dx, y + dy) for x, y in c] for c in cs]
-    want_aacute = mid("a") + shifted(mid("acutecomb"), 280, 16)
-    for name, want in (("aacute", want_aacute), ("nested", shifted(want_aacute, 24, 0))):
+    if kind == "composites":
+        want_aacute = mid("a") + shifted(mid("acutecomb"), 280, 16)
+        wanted = (("aacute", want_aacute), ("nested", shifted(want_aacute, 24, 0)))
+    else:
+        # the layer's own 'a' (as the filters left it) + the interpolated mark at the interpolated offset
+        own_a = _contours(fonts["mid"], "a") if "a" in fonts["mid"].getGlyphOrder() else []
+        want_aacute = own_a + shifted(mid("acutecomb"), 275, 10)
+        wanted = (("aacute", want_aacute), ("nested", shifted(want_aacute, 20, 0)))
+    for name, want in wanted:
         got = _contours(fonts["mid"], name) if name in fonts["mid"].getGlyphOrder() else None
         ctr["pipeline_sparse_composites_compared"] += 1
         if got is None or sorted(map(_canon_cycle, got)) != sorted(map(_canon_cycle, want)):
@@ -567,6 +583,11 @@ class C09(Property):
         for n in range(1, b["pipeline_len"] + 1):
             for seq in itertools.product(sorted(PIPE_FILTERS), repeat=n):
                 out.append([{"part": "pipeline", "seq": list(seq)}])
+                if n <= 2:
+                    for kind, scale in (("bases", 1000), ("bases", 1), ("composites", 1)):
+                        out.append([{"part": "pipeline", "seq": list(seq), "kind": kind, "scale": scale}])
+        for kind, scale in (("composites", 1000), ("bases", 1000), ("bases", 1), ("composites", 1)):
+            out.append([{"part": "pipeline", "seq": [], "kind": kind, "scale": scale}])
         return out
 
     def ops(self, h, b):
